@@ -669,13 +669,36 @@ mod ree {
         array.downcast::<PrimitiveArray<V>>()
     }
 
+    /// Returns the sum of `len` copies of `val` using `add`, by double-and-add
+    /// over the bits of `len` (most significant first).
+    ///
+    /// The run length is never converted to the value type: not every value type
+    /// can represent it (floats and intervals have no integer conversion, narrow
+    /// integers cannot hold long runs). Every intermediate is `val * k` for some
+    /// `k <= len`, so a checked `add` fails only if `val * len` itself overflows.
+    fn repeat_add<T: ArrowNativeTypeOp, E>(
+        val: T,
+        len: usize,
+        add: impl Fn(T, T) -> Result<T, E>,
+    ) -> Result<T, E> {
+        let mut sum = T::ZERO;
+        for bit in (0..usize::BITS - len.leading_zeros()).rev() {
+            sum = add(sum, sum)?;
+            if (len >> bit) & 1 == 1 {
+                sum = add(sum, val)?;
+            }
+        }
+        Ok(sum)
+    }
+
     /// Computes the sum (wrapping) of the array values.
     pub(super) fn sum_wrapping<I: RunEndIndexType, V: ArrowNumericType>(
         array: &dyn Array,
     ) -> Option<V::Native> {
         let ree = downcast::<I, V>(array)?;
         let Ok(sum) = fold(ree, |acc, val, len| -> Result<V::Native, Infallible> {
-            Ok(acc.add_wrapping(val.mul_wrapping(V::Native::usize_as(len))))
+            let run = repeat_add(val, len, |a, b| Ok::<_, Infallible>(a.add_wrapping(b)))?;
+            Ok(acc.add_wrapping(run))
         });
         sum
     }
@@ -690,14 +713,8 @@ mod ree {
             ));
         };
         fold(ree, |acc, val, len| -> Result<V::Native, ArrowError> {
-            let Some(len) = V::Native::from_usize(len) else {
-                return Err(ArrowError::ArithmeticOverflow(format!(
-                    "Cannot convert a run-end index ({:?}) to the value type ({})",
-                    len,
-                    std::any::type_name::<V::Native>()
-                )));
-            };
-            acc.add_checked(val.mul_checked(len)?)
+            let run = repeat_add(val, len, |a, b| a.add_checked(b))?;
+            acc.add_checked(run)
         })
     }
 
